@@ -184,6 +184,17 @@ func pipelineOf(v ssa.Value, in ssa.Value, res func(ssa.Value) ssa.Value, depth 
 	}
 	name := calleeName(call)
 	switch name {
+	case "golang.org/x/text/encoding.(Encoder).Bytes", "golang.org/x/text/encoding.(Decoder).Bytes", "golang.org/x/text/encoding.(Encoder).String", "golang.org/x/text/encoding.(Decoder).String":
+		// e.Bytes(s) is transform.Bytes(e, s)
+		inner, why := pipelineOf(call.Call.Args[1], in, res, depth+1)
+		if why != "" {
+			return nil, why
+		}
+		st, why := xformOf(call.Call.Args[0], res)
+		if why != "" {
+			return nil, why
+		}
+		return append(inner, st), ""
 	case "golang.org/x/text/transform.Bytes":
 		inner, why := pipelineOf(call.Call.Args[1], in, res, depth+1)
 		if why != "" {
